@@ -79,14 +79,27 @@ func c07(args []string) error {
 			text := r.ast.Text(ro)
 			variant := "plain"
 			want := r.verdict
+			kk := k
+			if k >= 6 {
+				kk = k % 6
+			}
 			switch {
-			case k == 2 && r.verdict == "acc":
+			case kk == 2 && r.verdict == "acc":
 				text = " \t\r\n" + text + "\n \t"
 				variant = "surrounding-whitespace"
-			case k == 3:
+			case kk == 3:
 				text = text + []string{"x", "}", " {}", ",", "0"}[rng.Intn(5)]
 				variant, want = "trailing-garbage", "rej"
-			case k == 4 && len(text) > 2:
+			case kk == 5:
+				// characters Go's unicode.IsSpace accepts but JSON does not: the text is not valid JSON
+				ws := []string{"\f", "\v", "\u0085", "\u00a0", "\u2028", "\u3000", "\ufeff"}[rng.Intn(7)]
+				if rng.Intn(2) == 0 {
+					text = ws + text
+				} else {
+					text = text + ws
+				}
+				variant, want = "non-json-whitespace", "rej"
+			case kk == 4 && len(text) > 2:
 				cut := 1 + rng.Intn(len(text)-1)
 				text = text[:cut]
 				variant, want = "truncated", "rej"
